@@ -9,7 +9,10 @@
     quantecon/game_theory/fictplay.py  FictitiousPlay._play / play / time_series (2 players: `fpStep`,
                                        N players: `fpStepN`), StochasticFictitiousPlay._play
                                        (perturbations are inputs), step_size
-    quantecon/game_theory/localint.py  LocalInteraction._play / play / time_series
+    quantecon/game_theory/localint.py  LocalInteraction._play / play / time_series, and the argument
+                                       handling of the two entry points (`playSchedule`, `tsSchedule`:
+                                       revision string, player_ind_seq omitted / int / sequence, num_reps,
+                                       ts_length, ValueError / TypeError / IndexError branches)
     quantecon/game_theory/logitdyn.py  LogitDynamics._play / play / time_series (N players; the cdf
                                        tables, which contain `exp`, are inputs)
   Random stream: the code draws (a) the sequence of revising players, (b) one uniform per KMR
@@ -289,6 +292,103 @@ def liStates (G : Game α) (adj : List (List α)) : List (List Nat) → List Nat
   | [], s => [s]
   | revs :: rest, s => s :: liStates G adj rest (liPlay G adj revs s.1 s.2)
 
+/-! ### LocalInteraction entry points: how `play` / `time_series` turn their arguments
+    (`revision`, `player_ind_seq`, `num_reps` / `ts_length`, the drawn player sequence) into the
+    sequence of revising sets, including the error branches -/
+
+/-- an entry of `player_ind_seq`: one player (`numbers.Integral`) or a list of players -/
+inductive Entry where
+  | one (p : Nat)
+  | many (ps : List Nat)
+deriving DecidableEq, Repr
+
+/-- the `player_ind_seq` argument: omitted / `None`, a bare integer, or a sequence of entries -/
+inductive SeqArg where
+  | none
+  | int (p : Nat)
+  | seq (es : List Entry)
+deriving DecidableEq, Repr
+
+inductive Revision where
+  | simultaneous
+  | asynchronous
+  | other                      -- any other string: `ValueError`
+deriving DecidableEq, Repr
+
+inductive Err where
+  | valueError | typeError | indexError
+deriving DecidableEq, Repr
+
+/-- in `play`'s loop an entry is `[p]` for an integer and the list itself otherwise -/
+def entrySet : Entry → List Nat
+  | .one p => [p]
+  | .many ps => ps
+
+/-- `LocalInteraction.play`: the revising set of each of the periods it runs.
+    `'simultaneous'`: `[None] * num_reps` (a given `player_ind_seq` is ignored);
+    `'asynchronous'`: `None` → the drawn `rng_integers(N, size=num_reps)`, one player per period;
+    an integer → one period; a sequence → one period per entry (`num_reps` is ignored);
+    anything else: `ValueError`. -/
+def playSchedule (N numReps : Nat) (rev : Revision) (arg : SeqArg) (drawn : List Nat) : Except Err (List (List Nat)) :=
+  match rev with
+  | .simultaneous => .ok (List.replicate numReps (List.range N))
+  | .asynchronous =>
+    match arg with
+    | .none => .ok ((drawn.take numReps).map fun p => [p])
+    | .int p => .ok [[p]]
+    | .seq es => .ok (es.map entrySet)
+  | .other => .error .valueError
+
+/-- what `time_series` hands to `play(…, player_ind_seq=player_ind_seq[t], num_reps=1)` in period `t` -/
+def tsArgAt (rev : Revision) (arg : SeqArg) (drawn : List Nat) (t : Nat) : Except Err SeqArg :=
+  match rev, arg with
+  | .simultaneous, _ => .ok .none                      -- `[None] * ts_length`
+  | .asynchronous, .none => .ok (.int (drawn.getD t 0))   -- the drawn `rng_integers(N, size=ts_length)`
+  | .asynchronous, .int _ => .error .typeError         -- `'int' object is not subscriptable`
+  | .asynchronous, .seq es =>
+    match es[t]? with
+    | some (.one p) => .ok (.int p)
+    | some (.many ps) => .ok (.seq (ps.map .one))      -- a list entry becomes a *sequence* for `play`
+    | none => .error .indexError
+  | .other, _ => .error .valueError
+
+/-- the revising sets of the inner call `play(revision, player_ind_seq=player_ind_seq[t], num_reps=1)` of period `t` -/
+def tsPeriod (N : Nat) (rev : Revision) (arg : SeqArg) (drawn : List Nat) (t : Nat) : Except Err (List (List Nat)) :=
+  match tsArgAt rev arg drawn t with
+  | .ok a => playSchedule N 1 rev a []
+  | .error e => .error e
+
+/-- `LocalInteraction.time_series`: for each of the `ts_length − 1` periods, the revising sets of the
+    inner `play` call (a list entry `[i, j]` is revised one player after the other) -/
+def tsSchedule (N tsLength : Nat) (rev : Revision) (arg : SeqArg) (drawn : List Nat) :
+    Except Err (List (List (List Nat))) :=
+  if rev = .other then .error .valueError
+  else if tsLength = 0 then .error .indexError             -- `out[0, i] = actions[i]` on an empty array
+  else (List.range (tsLength - 1)).mapM (tsPeriod N rev arg drawn)
+
+/-- run a list of revising sets, return the final (profile, stream) -/
+def liRun (G : Game α) (adj : List (List α)) (sch : List (List Nat)) (s : List Nat × List Nat) : List Nat × List Nat :=
+  sch.foldl (fun st revs => liPlay G adj revs st.1 st.2) s
+
+/-- `play(revision, actions, player_ind_seq, num_reps)` -/
+def liPlayE (G : Game α) (adj : List (List α)) (N numReps : Nat) (rev : Revision) (arg : SeqArg)
+    (drawn : List Nat) (s : List Nat × List Nat) : Except Err (List Nat × List Nat) :=
+  match playSchedule N numReps rev arg drawn with
+  | .ok sch => .ok (liRun G adj sch s)
+  | .error e => .error e
+
+/-- the rows of `time_series`: the profile before each period, then the final one -/
+def liRows (G : Game α) (adj : List (List α)) : List (List (List Nat)) → List Nat × List Nat → List (List Nat × List Nat)
+  | [], s => [s]
+  | per :: rest, s => s :: liRows G adj rest (liRun G adj per s)
+
+/-- `time_series(ts_length, revision, actions, player_ind_seq)` -/
+def liTimeSeriesE (G : Game α) (adj : List (List α)) (N tsLength : Nat) (rev : Revision) (arg : SeqArg)
+    (drawn : List Nat) (s : List Nat × List Nat) : Except Err (List (List Nat × List Nat)) :=
+  match tsSchedule N tsLength rev arg drawn with
+  | .ok periods => .ok (liRows G adj periods s)
+  | .error e => .error e
+
 /-! ## LogitDynamics -/
 
 /-- C-order flat index of the multi-index `os` in an array of shape `dims` -/
@@ -416,6 +516,42 @@ def handleG (ofI : Int → α) (ofN : Nat → α) (pα : String → Option α) (
       let sts := liStates G adj revs (actions, ri)
       showMat toString (sts.map (·.1)) ++ "|" ++ toString ((sts.getLastD (actions, ri)).2.length)
     | _, _, _, _, _, _, _ => "bad-op"
+  | "lientry" :: _ =>
+    -- the public entry points of LocalInteraction with their own argument handling
+    match kv toks "call", kvAm "A", kvAm "adj", kvA "tol", kvNat toks "rnd", kvNats toks "actions",
+          kv toks "revision", kv toks "arg", kvNat toks "n", kvNats toks "drawn", kvNats toks "ri" with
+    | some call, some A, some adj, some tol, some rnd, some actions, some revS, some argS, some nn, some drawn,
+      some ri =>
+      let G : Game α := ⟨A, tol, rnd = 1⟩
+      let rev : Revision := if revS = "simultaneous" then .simultaneous
+        else if revS = "asynchronous" then .asynchronous else .other
+      let parseEntry (t : String) : Option Entry :=
+        match t.toList with
+        | 's' :: rest => (parseList? parseNat? ((String.ofList rest).replace "+" ",")).map Entry.many
+        | _ => (parseNat? t).map Entry.one
+      let arg? : Option SeqArg :=
+        if argS = "none" then some .none
+        else match argS.toList with
+          | 'i' :: rest => (parseNat? (String.ofList rest)).map SeqArg.int
+          | 'l' :: ':' :: rest =>
+            let body := String.ofList rest
+            if body = "" then some (.seq []) else ((body.splitOn ",").mapM parseEntry).map SeqArg.seq
+          | _ => none
+      let showErr (e : Err) : String := match e with
+        | .valueError => "ERR:ValueError" | .typeError => "ERR:TypeError" | .indexError => "ERR:IndexError"
+      match arg? with
+      | none => "bad-op"
+      | some arg =>
+        if call = "play" then
+          match liPlayE G adj adj.length nn rev arg drawn (actions, ri) with
+          | .ok r => showList toString r.1 ++ "|" ++ toString r.2.length
+          | .error e => showErr e
+        else if call = "time_series" then
+          match liTimeSeriesE G adj adj.length nn rev arg drawn (actions, ri) with
+          | .ok rows => showMat toString (rows.map (·.1)) ++ "|" ++ toString ((rows.getLastD (actions, ri)).2.length)
+          | .error e => showErr e
+        else "bad-op"
+    | _, _, _, _, _, _, _, _, _, _, _ => "bad-op"
   | "logit" :: _ =>
     match kvNats toks "nums", kvNats toks "actions", kvNats toks "ps", kvAs "us" with
     | some nums, some actions, some ps, some us =>
